@@ -141,7 +141,7 @@ func c03Child() {
 		boot += fmt.Sprintf(" %d:%s", r.epoch, strings.Join(r.files, ","))
 	}
 	logEv(boot)
-	var inflight int64
+	var inflight [4]int64
 	counts := map[string]int{}
 	scorch.VerifSetDurableHook(func(s *scorch.Scorch, kind string, epoch uint64, names []string) {
 		switch kind {
@@ -175,7 +175,14 @@ func c03Child() {
 	})
 	scorch.VerifSetIntroductionHook(func(s *scorch.Scorch, iv *scorch.VerifIntroduction) {
 		if iv.Kind == "segment" {
-			logEv(fmt.Sprintf("intro %d %d", atomic.LoadInt64(&inflight), iv.PostEpoch))
+			// which writer's batch this is shows in the ids it mentions
+			w := -1
+			for _, id := range iv.BatchIDs {
+				fmt.Sscanf(id, "w%d-", &w)
+			}
+			if w >= 0 && w < len(inflight) {
+				logEv(fmt.Sprintf("intro %d %d", atomic.LoadInt64(&inflight[w]), iv.PostEpoch))
+			}
 		}
 	})
 	var idx bleve.Index
@@ -190,34 +197,46 @@ func c03Child() {
 		idx, err = bleve.NewUsing(dir, bleve.NewIndexMapping(), scorch.Name, scorch.Name, conf)
 		must(err)
 	}
-	n0 := 0
-	if v, err := idx.GetInternal([]byte("w0")); err == nil && v != nil {
-		fmt.Sscanf(string(v), "%d", &n0)
+	W, _ := strconv.Atoi(os.Getenv("C03_W"))
+	if W < 1 {
+		W = 1
 	}
-	rng := NewRng(uint64(n0)*7919 + uint64(ci))
-	for n := n0 + 1; n <= n0+maxBatch; n++ {
-		b := idx.NewBatch()
-		c04FillBatch(b, 0, n, K)
-		nn := n
-		if unsafeMode {
-			b.SetPersistedCallback(func(err error) {
-				if err == nil {
-					logEv(fmt.Sprintf("ack %d", nn))
+	var wwg sync.WaitGroup
+	for w := 0; w < W; w++ {
+		wwg.Add(1)
+		go func(w int) {
+			defer wwg.Done()
+			n0 := 0
+			if v, err := idx.GetInternal([]byte(fmt.Sprintf("w%d", w))); err == nil && v != nil {
+				fmt.Sscanf(string(v), "%d", &n0)
+			}
+			rng := NewRng(uint64(n0)*7919 + uint64(ci) + uint64(w)*31)
+			for n := n0 + 1; n <= n0+maxBatch; n++ {
+				b := idx.NewBatch()
+				c04FillBatch(b, w, n, K)
+				key := w*1000000 + n
+				if unsafeMode {
+					b.SetPersistedCallback(func(err error) {
+						if err == nil {
+							logEv(fmt.Sprintf("ack %d", key))
+						}
+					})
 				}
-			})
-		}
-		atomic.StoreInt64(&inflight, int64(n))
-		if err := idx.Batch(b); err != nil {
-			logEv("# batch-error " + err.Error())
-			os.Exit(4)
-		}
-		if !unsafeMode {
-			logEv(fmt.Sprintf("ack %d", n))
-		}
-		if rng.Chance(30) {
-			time.Sleep(time.Duration(rng.Intn(4)) * time.Millisecond)
-		}
+				atomic.StoreInt64(&inflight[w], int64(key))
+				if err := idx.Batch(b); err != nil {
+					logEv("# batch-error " + err.Error())
+					os.Exit(4)
+				}
+				if !unsafeMode {
+					logEv(fmt.Sprintf("ack %d", key))
+				}
+				if rng.Chance(30) {
+					time.Sleep(time.Duration(rng.Intn(4)) * time.Millisecond)
+				}
+			}
+		}(w)
 	}
+	wwg.Wait()
 	if unsafeMode {
 		time.Sleep(50 * time.Millisecond)
 	}
@@ -289,6 +308,7 @@ func runC03(t *Trace, r *Rng, tier string, _ []string) {
 		dir := filepath.Join(root, fmt.Sprintf("w%d", wl))
 		evlog := filepath.Join(root, fmt.Sprintf("w%d.ev", wl))
 		K := 2 + r.Intn(2)
+		W := 1 + wl%2
 		mode := "safe"
 		if wl%3 == 2 {
 			mode = "unsafe"
@@ -296,8 +316,12 @@ func runC03(t *Trace, r *Rng, tier string, _ []string) {
 		ci := r.Intn(12)
 		cat := mode
 		t.Add(fmt.Sprintf("workloads:%s-conf%d", mode, ci%4), 1)
-		t.Emit(cat+"/reset", false, fmt.Sprintf("reset %d", K), "ok")
-		acked := 0
+		ks := make([]string, W)
+		for i := range ks {
+			ks[i] = fmt.Sprint(K)
+		}
+		t.Emit(cat+"/reset", false, "reset "+strings.Join(ks, " "), "ok")
+		acked := make([]int, W)
 		evOff := 0
 		// the index is created before any kill: dying inside bleve.New is not what the property is about
 		idx0, err := bleve.NewUsing(dir, bleve.NewIndexMapping(), scorch.Name, scorch.Name, c03Config(ci, mode == "unsafe"))
@@ -309,8 +333,11 @@ func runC03(t *Trace, r *Rng, tier string, _ []string) {
 			switch {
 			case cy == cycles-1:
 				how = "clean-close"
-			case r.Chance(70):
+			case r.Chance(75):
 				name := c03CrashPoints[r.Intn(len(c03CrashPoints))]
+				if r.Chance(40) { // the window between a commit and the next persist round
+					name = []string{"persist:after-commit", "persist:after-sync"}[r.Intn(2)]
+				}
 				crash = fmt.Sprintf("%s#%d", name, 1+r.Intn(6))
 				how = name
 			}
@@ -320,7 +347,7 @@ func runC03(t *Trace, r *Rng, tier string, _ []string) {
 			}
 			cmd := exec.Command(self, "c03child")
 			cmd.Env = append(os.Environ(), "C03_DIR="+dir, "C03_MODE="+mode, fmt.Sprintf("C03_K=%d", K), fmt.Sprintf("C03_CONF=%d", ci),
-				fmt.Sprintf("C03_MAXBATCH=%d", maxBatch), "C03_CRASH="+crash, "C03_EVLOG="+evlog)
+				fmt.Sprintf("C03_MAXBATCH=%d", maxBatch), "C03_CRASH="+crash, "C03_EVLOG="+evlog, fmt.Sprintf("C03_W=%d", W))
 			cmd.Stderr = os.Stderr
 			must(cmd.Start())
 			done := make(chan error, 1)
@@ -364,10 +391,10 @@ func runC03(t *Trace, r *Rng, tier string, _ []string) {
 				}
 				kind := strings.SplitN(l, " ", 2)[0]
 				if kind == "ack" {
-					var n int
-					fmt.Sscanf(l, "ack %d", &n)
-					if n > acked {
-						acked = n
+					var key int
+					fmt.Sscanf(l, "ack %d", &key)
+					if w, n := key/1000000, key%1000000; w < W && n > acked[w] {
+						acked[w] = n
 					}
 				}
 				t.Emit(cat+"/event-"+kind, kind != "boot", l, "ok")
@@ -389,12 +416,12 @@ func runC03(t *Trace, r *Rng, tier string, _ []string) {
 			adv, _ := idx.Advanced()
 			rd, err := adv.Reader()
 			must(err)
-			docs, ints, count, err := c04Observe(rd, 1, K)
+			docs, ints, count, err := c04Observe(rd, W, K)
 			rd.Close()
 			if err != nil {
 				t.Emit(cat+"/reopen", true, "echo ok", "read-failed:"+oneLine(err.Error()))
 			} else {
-				t.Emit(cat+"/recovered", true, c04Line(0, []int{acked}, docs, ints, count), "ok")
+				t.Emit(cat+"/recovered", true, c04Line(0, acked, docs, ints, count), "ok")
 			}
 			// a search sees the same
 			req := bleve.NewSearchRequestOptions(bleve.NewMatchAllQuery(), 100, 0, false)
